@@ -272,7 +272,7 @@ def run(ctx):
                 f_mc.append((cfg, ex.submit(core.run_tlc, "MC_SrvInfo.tla", cfg, cwd=SPECDIR, workers=4, timeout=1500,
                                             coverage=True, metadir=_metadir(ctx, "mc"), env=_jenv(ctx))))
         else:
-            f_mc.append(("Exp_fixed_quick.cfg (model only)", ex.submit(
+            f_mc.append(("MC_fixed_quick.cfg", ex.submit(
                 core.run_tlc, "MC_SrvInfo.tla", "MC_fixed_quick.cfg", cwd=SPECDIR, workers=2, timeout=600,
                 coverage=True, metadir=_metadir(ctx, "mc"), env=_jenv(ctx))))
         f_merge = ex.submit(_pipe, ctx, "MC_SrvInfo.tla", "Exp_pinned_%s.cfg" % tier, [exe, "merge"], 1500)
